@@ -19,6 +19,14 @@ transport either stops delivering once a close was requested (plain TCP) or
 keeps delivering what had already arrived (TLS, in-memory and stacked
 transports).
 
+A small share of the streams are v1 lines whose validity the statement leaves open
+(out-of-range or oddly spelled ports, address fields that are no addresses, family
+mismatch, trailing fields, lines longer than the specification's 107 bytes): for
+those the only demands are a clean acceptance (exactly the bytes after the line
+reach the application) or a clean refusal, and the same verdict as when the very
+same stream arrives in one delivery at a fresh wrapper.  Valid UNKNOWN lines reach
+the 107-byte limit exactly.
+
 Oracle: valid header -> the application receives exactly the application bytes,
 once, and every getPeer()/getHost() answer obtained once the whole header has
 been delivered is the header's source/destination (the real connection's
@@ -45,24 +53,35 @@ TECHNIQUE = ("deterministic simulation: seeded PROXY v1/v2 header grammar + stru
 QUICK_RUNS = 130000
 TWIN_P = 0.08   # this share of the runs drives two independent instances of the scenario one after the other (detsim.runner._run_scenario)
 BATCH = 200
-# Known finding 1 (version decided from the first delivery alone): this fraction of
-# runs keeps the first delivery >= 16 (v2) / 8 (v1) bytes so that the rest of the
-# property is exercised; the remaining runs cut anywhere.  Set to 0.0 once fixed.
+# Finding 1 (version decided from the first delivery alone), genuine defect of the tree as first examined, REPAIRED in
+# /repo 9245dd3: this fraction of the runs still keeps the first delivery >= 16 (v2) / 8 (v1) bytes (kept for dev-time
+# comparison with a tree without the repair); the remaining runs cut anywhere.
 AVOID_KNOWN_P = 0.1
-# Known finding 2 ("PROXY UNKNOWN\r\n" rejected): weight of that header among v1 headers (the others sum to 300).
+# Finding 2 ("PROXY UNKNOWN\r\n" rejected), REPAIRED in /repo 515f838: weight of that header among v1 headers (the others sum to 300).
 BARE_UNKNOWN_WEIGHT = 12
 # An exception escaping from dataReceived on an invalid header is reported as its own
 # clause (invalid-header-raised).  With False it is treated like a close request
 # (a real reactor drops a connection whose protocol raises).
 STRICT_NO_RAISE = True
 # Share of the invalid streams that are followed by a complete valid header + more bytes, and share of the invalid
-# streams whose transport keeps delivering after loseConnection() was requested.  Finding 4 (bytes that follow a refused
-# stream are judged afresh: a valid header starting a later delivery is accepted and what follows reaches the
-# application) needs both plus a cut exactly in front of the following header; FOLLOW_P = 0.0 avoids it entirely while
+# streams whose transport keeps delivering after loseConnection() was requested.  Finding 4, genuine defect of the tree as first
+# examined, REPAIRED in /repo d9065ac (bytes that followed a refused stream were judged afresh: a valid header starting a later
+# delivery was accepted and what followed reached the application) needs both plus a cut exactly in front of the following header;
+# the precondition is in the runs with the shares below; FOLLOW_P = 0.0 keeps it out entirely (dev-time comparison only) while
 # the keep-delivering transport is still exercised with the other invalid streams.
 FOLLOW_P = 0.3
 KEEP_DELIVERING_P = 0.25
-LEAK_WEIGHT = 10          # weight of each of the two raising inputs among invalid streams (the others sum to 570)
+LEAK_WEIGHT = 10          # weight of each of the two raising inputs (finding 3, REPAIRED in /repo b52cead) among invalid streams (the others sum to 570)
+# Share of the non-valid streams that are "unsettled": v1 lines whose validity the statement does not settle (it does not
+# say how strict 'valid' is): ports out of range or oddly spelled, address fields that are no addresses, family mismatch,
+# trailing fields, lines one byte over the specification's 107.  The oracle demands only what holds under either reading:
+# a clean acceptance or a clean refusal, and the SAME verdict as when the stream arrives in one piece.
+UNSETTLED_P = 0.15
+# Finding 5, repaired in /repo fc40009 (V1Parser.feed applied its length limit only while no CRLF had arrived: a line of
+# 109 bytes or more was accepted in one piece and refused when a delivery ended at byte 108 or later of the line):
+# weight of such lines among the unsettled streams (the others sum to 100).  12 lets the precondition in; 0 keeps it out
+# entirely and is only for dev-time comparison.
+OVERLONG_WEIGHT = 12
 COMPONENTS = {
     "real": ["twisted.protocols.haproxy._wrapper.HAProxyWrappingFactory/HAProxyProtocolWrapper",
              "twisted.protocols.haproxy._v1parser.V1Parser", "twisted.protocols.haproxy._v2parser.V2Parser",
@@ -76,12 +95,22 @@ RULE = ("run = one PROXY header (v1/v2; TCP4, TCP6, UNIX, UNKNOWN, LOCAL, UNSPEC
         "(either, both, in either order) in connectionMade in 40% of the runs and, in half of the runs, between deliveries "
         "(before, inside and after the header region) - every answer obtained after the end of the header is checked; 30% of "
         "the invalid streams are followed by a valid header + bytes and 25% of them run on a transport that keeps delivering "
-        "after the close request (all remaining pieces are handed to the wrapper); non-trivial = the stream was cut at least once")
+        "after the close request (all remaining pieces are handed to the wrapper); valid UNKNOWN lines are 15..107 bytes long "
+        "(the limit itself in a fifth of them); UNSETTLED_P of the non-valid streams are v1 lines of unsettled validity (port "
+        "range/spelling, non-address hosts, family mismatch, trailing field, 108-byte line, and - weight OVERLONG_WEIGHT - "
+        "otherwise well-formed lines of 109..200 bytes) judged only for a clean outcome and for the same verdict as the "
+        "one-piece delivery of the same stream to a fresh wrapper; non-trivial = the stream was cut at least once")
 ASSUMPTIONS = [
     "invalid streams are limited to structural malformations (wrong signature/keyword/version/command/family, missing "
-    "fields, short v2 address block, v1 line > 107 bytes, non-numeric port, non-ASCII address); out-of-range ports and "
-    "non-address text in v1 address fields are NOT generated (Twisted accepts them; the statement does not say how strict "
-    "'valid' is)",
+    "fields, short v2 address block, v1 line > 107 bytes that also lacks fields, non-numeric port, non-ASCII address); "
+    "out-of-range or signed/underscored/zero-padded ports, non-address text in v1 address fields, a family keyword that "
+    "does not match the address syntax, extra fields and otherwise well-formed lines longer than 107 bytes are generated "
+    "only as streams of UNSETTLED validity (Twisted accepts them; the statement does not say how strict 'valid' is): no "
+    "verdict on accept-or-refuse nor on the addresses shown, only on the cleanliness of the outcome and on its "
+    "independence from the segmentation (the property's title; under either reading of 'valid' a verdict that changes "
+    "with the cut violates one of the statement's two sentences)",
+    "the reference verdict of an unsettled stream is what a fresh wrapper of a fresh factory does with the whole stream "
+    "in one delivery (whole == split)",
     "the transport stops delivering once a close has been requested, except in the KEEP_DELIVERING_P share of the invalid "
     "streams: there every remaining piece is still handed to the wrapper (ITransport.loseConnection promises nothing about "
     "the read side; twisted.protocols.tls.TLSMemoryBIOProtocol and the in-memory transports keep delivering) and 'without "
@@ -206,7 +235,10 @@ def gen_valid(sim):
         return {"v": 1, "proto": "TCP6", "src": ip6_text(sim, gen_ip6(sim)), "dst": ip6_text(sim, gen_ip6(sim)),
                 "sport": gen_port(sim), "dport": gen_port(sim)}
     if proto == "UNKNOWN":
-        junk = b" " + sim.draw_bytes(sim.draw_int(0, 60, "junklen"), b"abcf:. 0159TCP")
+        # the longest valid line has pp.V1_MAX bytes, CRLF included ("PROXY UNKNOWN" + junk + CRLF)
+        room = pp.V1_MAX - 16
+        n = sim.draw_weighted([(sim.draw_int(0, 60, "junklen"), 8), (room, 2), (room - 1, 1), (sim.draw_int(61, room, "junklen-long"), 1)], "junkkind")
+        junk = b" " + sim.draw_bytes(min(n, 24), b"abcf:. 0159TCP") + b"f" * max(0, n - 24)
         return {"v": 1, "proto": "UNKNOWN", "junk": junk}
     return {"v": 1, "proto": "UNKNOWN", "junk": b"", "bare": True}
 
@@ -259,6 +291,51 @@ def gen_invalid(sim):
         cls = "leak"
         data = base4.replace(b"192", b"\xff\xfe")
     return kind, cls, data
+
+
+def gen_unsettled(sim):
+    """(label, header bytes): one CRLF-terminated v1 line whose validity the statement leaves open."""
+    kind = sim.draw_weighted([("v1-port-out-of-range", 20), ("v1-port-spelling", 20), ("v1-host-not-an-address", 20),
+                              ("v1-family-mismatch", 15), ("v1-trailing-field", 15), ("v1-line-one-over-limit", 10),
+                              ("v1-overlong-line", OVERLONG_WEIGHT)], "unsettled")
+    six = sim.draw_bool(0.4, "tcp6")
+    if six:
+        src, dst = ip6_text(sim, gen_ip6(sim)), ip6_text(sim, gen_ip6(sim))
+    else:
+        src, dst = str(ipaddress.IPv4Address(gen_ip4(sim))), str(ipaddress.IPv4Address(gen_ip4(sim)))
+    fields = ["TCP6" if six else "TCP4", src, dst, str(gen_port(sim)), str(gen_port(sim))]
+    tail = ""
+    if kind == "v1-port-out-of-range":
+        fields[sim.draw_choice([3, 4], "which")] = str(sim.draw_weighted(
+            [(65536, 2), (sim.draw_int(65537, 99999, "bigport"), 3), (2 ** 32, 1), (10 ** 20, 1)], "bigkind"))
+    elif kind == "v1-port-spelling":
+        fields[sim.draw_choice([3, 4], "which")] = sim.draw_choice(["0080", "00", "+2", "-5", "1_0"], "spelling")
+    elif kind == "v1-host-not-an-address":
+        fields[sim.draw_choice([1, 2], "which")] = sim.draw_choice(
+            ["999.1", "hello", "1.2.3", "256.1.1.1", "1.2.3.4.5", "::g", "1::2::3", "[::1]"], "nohost")
+    elif kind == "v1-family-mismatch":
+        fields[0] = "TCP4" if six else "TCP6"
+    elif kind == "v1-trailing-field":
+        tail = " " + sim.draw_bytes(sim.draw_int(1, 12, "taillen"), b"abcf:. 0159TCP").decode("ascii")
+    else:
+        # a line longer than the specification's limit that is otherwise well formed
+        total = pp.V1_MAX + 1 if kind == "v1-line-one-over-limit" else sim.draw_weighted(
+            [(pp.V1_MAX + 2, 2), (pp.V1_MAX + 3, 1), (sim.draw_int(pp.V1_MAX + 4, 200, "linelen"), 4)], "lenkind")
+        form = sim.draw_choice(["unknown", "padded-port", "trailing"], "longform")
+        if form == "unknown":
+            return kind, b"PROXY UNKNOWN " + b"f" * (total - 16) + b"\r\n"
+        short = len(" ".join(["PROXY"] + fields)) + 2
+        if form == "padded-port":
+            fields[4] = "0" * (total - short) + fields[4]
+        else:
+            tail = " " + "f" * (total - short - 1)
+    line = (" ".join(["PROXY"] + fields) + tail + "\r\n").encode("ascii")
+    if kind not in ("v1-line-one-over-limit", "v1-overlong-line") and len(line) > pp.V1_MAX:
+        # keep the other kinds within the limit: the same oddity on a short line
+        fields[1:3] = [f if len(f) < 16 else "::1" for f in fields[1:3]]
+        fields[3:5] = [f[:12] for f in fields[3:5]]
+        line = (" ".join(["PROXY"] + fields) + tail + "\r\n").encode("ascii")
+    return kind, line
 
 
 # ------------------------------------------------------------------ scenario
@@ -331,6 +408,7 @@ def run(sim):
     avoid = sim.draw_bool(AVOID_KNOWN_P, "avoid-known")
     follow = b""
     keep = False
+    unsettled = False
 
     if valid:
         desc = gen_valid(sim)
@@ -340,6 +418,15 @@ def run(sim):
         if desc.get("bare"):
             label += "-bare"
         first_min = pp.min_first_segment(desc) if avoid else 0
+    elif sim.draw_bool(UNSETTLED_P, "unsettled"):
+        unsettled = True
+        label, header = gen_unsettled(sim)
+        cls = "unsettled"
+        first_min = 16 if avoid else 0
+        keep = sim.draw_bool(KEEP_DELIVERING_P, "transport-keeps-delivering")
+        sim.probe("unsettled_stream")
+        if len(header) > pp.V1_MAX + 1:
+            sim.probe("overlong_line")
     else:
         label, cls, header = gen_invalid(sim)
         # an invalid stream is refused whatever the first delivery looks like; keeping the
@@ -452,6 +539,10 @@ def run(sim):
                 if expect is not None:
                     sim.fault("early_look_then_header_addresses")
         sim.check("no-spurious-loss", ("lost",) not in rec, label, ctx)
+    elif unsettled and not t.disconnecting and raised is None:
+        # read as valid: then the application gets exactly what follows the line (no verdict on the addresses)
+        sim.check("application-bytes", got == payload, "unsettled", ctx)
+        sim.check("no-spurious-loss", ("lost",) not in rec, label, ctx)
     else:
         mark = len(rec) if t.close_mark is None else t.close_mark
         before = b"".join(e[1] for e in rec[:mark] if e[0] == "data")
@@ -464,11 +555,38 @@ def run(sim):
             sim.probe("invalid_header_raised")
         else:
             sim.check("invalid-header-accepted", t.disconnecting, label, ctx)
-        sim.probe("invalid_" + cls)
+        if not unsettled:
+            sim.probe("invalid_" + cls)
         if follow:
             sim.probe("invalid_then_valid_header")
         # bytes of the refused stream that the transport still delivered after the close request (checked last: finding 4)
         sim.check("delivered-after-refusal", got == before, "valid-header-follows" if follow else "no-header-follows", ctx)
+    if unsettled:
+        # whichever way the line is read, the reading must not depend on how the stream was cut: the same stream in one
+        # delivery to a fresh wrapper of a fresh factory gives the reference verdict
+        rec2 = []
+
+        class B(App):
+            pass
+        B.rec = rec2
+        B.pos = [len(stream)]
+        w3 = HAProxyWrappingFactory(Factory.forProtocol(B)).buildProtocol(address.IPv4Address("TCP", "10.0.0.2", 2002))
+        t3 = Transport(sim, "R")
+        t3.rec = rec2
+        t3.protocol = w3
+        raised3 = None
+        try:
+            w3.makeConnection(t3)
+            w3.dataReceived(stream)
+        except Violation:
+            raise
+        except Exception as e:  # a refusal by exception is still a refusal for this comparison
+            raised3 = e
+        verdict = "refused" if (t.disconnecting or raised is not None) else "accepted"
+        reference = "refused" if (t3.disconnecting or raised3 is not None) else "accepted"
+        sim.event("verdicts", verdict, reference)
+        sim.check("verdict-depends-on-segmentation", verdict == reference, label,
+                  lambda: "in one delivery the stream is %s, cut it is %s; %s" % (reference, verdict, ctx()))
     sim.state((label, min(first, 17), len(pieces) > 1, bool(A.made_looks), keep))
     sim.nontrivial = len(pieces) > 1
 
@@ -491,6 +609,12 @@ MUTANTS = [
     "_wrapper.py: only getHost() cached : caught (addresses:*)",
     "_wrapper.py: header addresses answered only while dataReceived is running (flag set/cleared around the delivery) : caught by the looks between deliveries (addresses:*)",
     "_wrapper.py: 'except InvalidProxyHeader: self.loseConnection()' + 'self._proxyInfo = ProxyInfo(data, None, None)' (later bytes of a refused stream passed through) : caught only on the keep-delivering transport (delivered-after-refusal:no-header-follows)",
-    "candidate FIX for finding 4 (wrapper remembers the refusal: self._refused = True at both loseConnection() sites, dataReceived returns at once when set) : check passes with FOLLOW_P=0.3, KEEP_DELIVERING_P=0.25 (130000 runs, exit 0); without it: delivered-after-refusal:valid-header-follows",
-    "candidate FIX (buffer undecided first bytes in the wrapper; V1Parser: partition() for the protocol keyword, convertError(ValueError, InvalidProxyHeader) around decode()/int()) : check passes with AVOID_KNOWN_P=0, BARE_UNKNOWN_WEIGHT=12, LEAK_WEIGHT=10 (60000 runs, exit 0)",
+    "_v1parser.py feed (before fc40009): 'len(self.buffer) > 107' -> '> 106' (limit one byte early, still only while no CRLF has arrived) : caught by the 108-byte lines (verdict-depends-on-segmentation:v1-line-one-over-limit); '> 105' : also valid-header-rejected:other on the valid UNKNOWN lines of exactly 107 bytes",
+    "any validation of a v1 line that runs only when the line arrives complete in one delivery, or only when it does not : caught by the unsettled streams (verdict-depends-on-segmentation:<kind>)",
+    "GENUINE DEFECT (finding 5), REPAIRED in /repo fc40009 (found with OVERLONG_WEIGHT > 0): V1Parser.feed applied its length limit only while no CRLF had "
+    "arrived - b'PROXY UNKNOWN ' + b'f'*150 + CRLF + data was accepted in one delivery and refused when a delivery ended between byte 108 and the LF "
+    "(verdict-depends-on-segmentation:v1-overlong-line); the repair (end = buffer.find(CRLF); refuse when end > 106 or (end < 0 and len(buffer) > 107)) : "
+    "check passes with OVERLONG_WEIGHT = 12 (130000 runs, 688 over-long lines, exit 0)",
+    "repair of finding 4, in /repo d9065ac (wrapper remembers the refusal: self._refused = True at both loseConnection() sites, dataReceived returns at once when set) : check passes with FOLLOW_P=0.3, KEEP_DELIVERING_P=0.25 (130000 runs, exit 0); without it: delivered-after-refusal:valid-header-follows",
+    "repairs of findings 1-3, in /repo 9245dd3, 515f838, b52cead (buffer undecided first bytes in the wrapper; V1Parser: partition() for the protocol keyword, convertError(ValueError, InvalidProxyHeader) around decode()/int()) : check passes with AVOID_KNOWN_P=0, BARE_UNKNOWN_WEIGHT=12, LEAK_WEIGHT=10 (60000 runs, exit 0)",
 ]
